@@ -20,6 +20,7 @@ EXTENDS Integers, Sequences, FiniteSets, TLC
 CONSTANTS MaxBuilders,     \* builders per session
           MaxAtt,          \* proofs per attempt
           RejectNoSk, RejectR0,
+          CtxVals, NonceVals,   \* values context / nonce range over (1 = the value session 1 uses; 0 = zero, a value implementations like to treat specially)
           Reduced          \* quick tier: the two sessions differ in exactly one tuple component; first label is "a" wlog
 
 Keys == {1, 2}
@@ -69,12 +70,12 @@ Honest == \E s \in {1, 2} :
 \* C03: proofs under one label are bound to one secret
 Linked == \A i, j \in 1..Len(att.list) : Lab(i) = Lab(j) => Effective(att.list[i]) = Effective(att.list[j])
 
-Tuples == [ctx : {1, 2}, nonce : {1, 2}, sig : BOOLEAN]
+Tuples == [ctx : CtxVals, nonce : NonceVals, sig : BOOLEAN]
 Init == /\ bl \in Configs
         /\ sess \in [1..2 -> Tuples] /\ sess[1] # sess[2]
         /\ sess[1] = [ctx |-> 1, nonce |-> 1, sig |-> sess[1].sig]        \* wlog: session 1 uses context 1, nonce 1
         /\ Reduced => Cardinality({f \in {"ctx", "nonce", "sig"} : sess[1][f] # sess[2][f]}) = 1   \* sessions differ in one component
-        /\ att \in [list : {<<>>}, keys : {<<>>}, labels : {<<>>}, ctx : {1, 2}, nonce : {1, 2}, issig : BOOLEAN,
+        /\ att \in [list : {<<>>}, keys : {<<>>}, labels : {<<>>}, ctx : CtxVals, nonce : NonceVals, issig : BOOLEAN,
                     useLabels : BOOLEAN, keysShort : BOOLEAN]
 Add(p, k, l) == /\ Len(att.list) < MaxAtt
                 /\ att' = [att EXCEPT !.list = Append(@, p), !.keys = Append(@, k), !.labels = Append(@, l)]
